@@ -561,7 +561,7 @@ func (dsc *dataStoreCommand) bitfieldWrite(keyName string, ops []*bitfieldOp) (o
 		}
 		// offsets come from the client; redis limits a string to 512MB (2^32 bits)
 		n := op.endOffset
-		if op.bitOffset < 0 || n < op.bitOffset || n >= maxStringLength*8 {
+		if op.bitOffset < 0 || n < op.bitOffset || int64(n) >= int64(maxStringLength)*8 {
 			output.data = respErrorString("ERR bit offset is not an integer or out of range")
 			return
 		}
@@ -2246,7 +2246,7 @@ func (dsc *dataStoreCommand) getHashTableRandField(keyName string, count *int, w
 			arraySize = 1
 		} else {
 			// same limit as redis: -LONG_MAX/2 (negating the smallest integer overflows)
-			if *count < -(math.MaxInt64 / 2) {
+			if int64(*count) < -(math.MaxInt64 / 2) {
 				output.data = respErrorString("ERR value is out of range")
 				return
 			}
@@ -2531,7 +2531,7 @@ func (dsc *dataStoreCommand) getSetRandMember(keyName string, count *int) (outpu
 			arraySize = 1
 		} else {
 			// same limit as redis: -LONG_MAX/2 (negating the smallest integer overflows)
-			if *count < -(math.MaxInt64 / 2) {
+			if int64(*count) < -(math.MaxInt64 / 2) {
 				output.data = respErrorString("ERR value is out of range")
 				return
 			}
